@@ -565,3 +565,19 @@ def c16(prop, tier, seed, known):
 
 SPECIALS["C12"] = c12
 SPECIALS["C16"] = c16
+
+
+# ------------------------------------------------------------------------------------------ C01
+def c01(prop, tier, seed, known):
+    """std::vector equivalence also covers element types the storm engine does not instantiate:
+    pointer / arithmetic / enum elements built from converting ranges, and the minimal-requirement
+    archetypes (values compared with std::vector driven by the same calls)."""
+    q = tier == "quick"
+    stds = ["11", "17", "20"] if q else ["11", "14", "17", "20", "2b"]
+    v1, c1 = run_aux(prop, "conv_grid", stds, "CONVFAIL", "model.conv_value", "model.conv_compile", "CONV")
+    v2, c2 = run_aux(prop, "archetypes", stds, "ARCHFAIL", "model.arch_value", "model.arch_compile", "ARCH")
+    return dict(coverage=dict(conversion_grid=c1, archetypes=c2, extra_evaluations=c1["cases"] + c2["cases"]),
+                violations=v1 + v2)
+
+
+SPECIALS["C01"] = c01
